@@ -132,6 +132,17 @@ func main() {
 			fmt.Fprintln(os.Stderr, err)
 			os.Exit(2)
 		}
+	case "numpools":
+		res, err := vesting.RunHuge(*walks, *seed)
+		if err != nil {
+			fmt.Fprintln(os.Stderr, "numpools:", err)
+			os.Exit(2)
+		}
+		b, _ := json.MarshalIndent(res, "", " ")
+		if err := os.WriteFile(*out, b, 0o644); err != nil {
+			fmt.Fprintln(os.Stderr, err)
+			os.Exit(2)
+		}
 	case "numvesting":
 		res, err := vesting.RunNumeric(*edges, *walks, *seed)
 		if err != nil {
